@@ -112,7 +112,9 @@ def run_one(run):
         mb = knobs["max_batch"] if j == 0 else ch.pick([1, "auto", 2, 4], "max-batch-2")
         if j == 1:
             reset_process_state(scene.knob_overrides({**knobs, "chunk_waves": ch.pick([1, None, 4, 2], "chunk-waves-2")}, wg))
-        cfg = draw_sim_config(ch)
+        # a minority of runs are probe runs: tasks are crashed at an arbitrary abTEM line and retried, or re-run on their already
+        # consumed inputs (what a distributed scheduler's retry does); findings of such runs are PROBE lines, never verdicts
+        cfg = draw_sim_config(ch, probes=ch.bool(0.1, "probe-run"))
         sim = run.add_sim(Sim(ch, cfg))
         sub = sub_exc = None
         try:
